@@ -17,7 +17,7 @@ MANIFEST = dict(
          "`self.changes = []` reset, the for-else clear, ack-before-parse, counter kind), so removing the reset or changing a slice changes the Lean term. "
          "Tie: translator facts + differential correspondence of the real long-lived handler objects (async via the real consume task on the virtual loop; "
          "threaded via stepped dispatch on a real GeckoSpa) + a sequential reference block kept by the harness (search)."
-         ' Since session 3: partial updates carry overlapping neighbour records (p, p+-1, p). Session 4: histories contain partial updates that arrive while a request holds the protocol lock (busy windows): application stays in arrival order and every update is acknowledged. The acknowledging handler and the apply callback of the awaitable client have no suspension point (partial_update_never_suspends over the regenerated skeletons; no_suspension_no_aw: every trace is one atomic block). Histories with a byte-identical report repeated after a refresh overwrote its positions; partial_update_path_state_inventory. Real refresh exchanges on the wire with a partial update queued just ahead of the answer, at several phases of the two pollers. Session 5: connected clients (the items of a pack\'s tables built over the block and watched, as a facade does) with partial updates and refreshes that put unusual stored values under them (an enumeration\'s byte at / around its label count, 255, first record of several); an exception of the implementation during a refresh is an observation with a failing input. The threaded rig\'s partial updates arrive as framed datagrams in a fake OS socket that truncates to the reader\'s buffer and are read by the engine\'s own receive step; maximal messages (255 records) in the corpus; largest_partial_update_fits_the_receive_buffer over the regenerated recvBufferSize. One message for every record count 0..255; count_follows_the_verb over the regenerated verbSkip facts (the translator admits only `received_bytes[<constant>:]`).',
+         ' Since session 3: partial updates carry overlapping neighbour records (p, p+-1, p). Session 4: histories contain partial updates that arrive while a request holds the protocol lock (busy windows): application stays in arrival order and every update is acknowledged. The acknowledging handler and the apply callback of the awaitable client have no suspension point (partial_update_never_suspends over the regenerated skeletons; no_suspension_no_aw: every trace is one atomic block). Histories with a byte-identical report repeated after a refresh overwrote its positions; partial_update_path_state_inventory. Real refresh exchanges on the wire with a partial update queued just ahead of the answer, at several phases of the two pollers. Session 5: connected clients (the items of a pack\'s tables built over the block and watched, as a facade does) with partial updates and refreshes that put unusual stored values under them (an enumeration\'s byte at / around its label count, 255, first record of several); an exception of the implementation during a refresh is an observation with a failing input. The threaded rig\'s partial updates arrive as framed datagrams in a fake OS socket that truncates to the reader\'s buffer and are read by the engine\'s own receive step; maximal messages (255 records) in the corpus; largest_partial_update_fits_the_receive_buffer over the regenerated recvBufferSize. One message for every record count 0..255; count_follows_the_verb over the regenerated verbSkip facts (the translator admits only `received_bytes[<constant>:]`). Round 14: a real connected manager; behind the final segment of every refresh answer the spa reports a change inside the refreshed range - the client must hold the change (arrival order).',
     note="Trusted: Lean kernel, translator, correspondence harness. asyncio: no other task runs between async_handle and async_handled (neither suspends). "
          "Malformed STATP bodies (short records) and observers that raise inside the threaded callback are outside the property's quantifier and the model. "
          "A STATQ arriving at the client is outside the quantifier too (the async handler would then re-apply its last change list).",
@@ -385,6 +385,86 @@ def run_history(ctx, hist, block0, lines, impl_ans, label, tables=None):
     return results
 
 
+def connected_refresh_then_update(ctx):
+    """the REAL connection (manager -> `_connect`: the packet consumer, the partial-update consumer and the refresh loop as it wires
+    them) against the real simulator: right BEHIND the final segment of every answer to a status block request the spa reports a change
+    of a position inside the requested range (a framed STATP, built by the simulator's own report constructor). Arrival order says:
+    the refresh first, the change second - so the position must hold the reported change afterwards, every time"""
+    import fakenet
+    import struct as pystruct
+    from geckolib import GeckoAsyncSpaMan
+    from geckolib.driver.protocol.statusblock import GeckoPartialStatusBlockProtocolHandler
+    from props import c10
+    rec = {"injected": [], "acks": 0}
+
+    async def body(loop):
+        class Man(GeckoAsyncSpaMan):
+            async def handle_event(self, event, **kw):
+                pass
+        sim = fakenet.make_sim(c10.SNAP)
+        net = fakenet.Network(loop, sim, phases=[], seed=1)
+        loop.network = net
+        m = Man("uuid-1", spa_identifier=c10.IDENT, spa_address="10.0.0.9", spa_name="Spa")
+        last_req = {}
+        n = [0]
+
+        def on_client(data):
+            k = data.find(b"<DATAS>STATU")
+            if k >= 0 and len(data) >= k + 17:
+                _seq, start, length = pystruct.unpack(">BHH", data[k + 12:k + 17])
+                last_req["range"] = (start, length)
+            if b"<DATAS>STATQ" in data:
+                rec["acks"] += 1
+
+        def on_deliver(tr, payload):
+            k = payload.find(b"<DATAS>STATV")
+            if k < 0 or len(payload) < k + 15 or payload[k + 13] != 0 or "range" not in last_req or m.facade is None:
+                return
+            start, length = last_req["range"]
+            if length < 8:
+                return
+            n[0] += 1
+            pos = start + 3 + (n[0] % 3)
+            val = bytes([0xA0 + n[0] % 16, 0x50 + n[0] % 7])
+            dst = (payload[payload.find(b"<DESCN>") + 7:payload.find(b"</DESCN>")])
+            src = (payload[payload.find(b"<SRCCN>") + 7:payload.find(b"</SRCCN>")])
+            h = GeckoPartialStatusBlockProtocolHandler.report_changes(sim._socket, [(pos, val)], parms=(tr.addr[0], tr.addr[1], dst, src))
+            net.push(tr, h.send_bytes)
+            rec["injected"].append([round(loop.time(), 2), pos, val.hex()])
+        net.on_client_datagram = on_client
+        net.on_deliver = on_deliver
+        await m.__aenter__()
+        for _ in range(800):
+            await asyncio.sleep(0.05)
+            if m.facade is not None:
+                break
+        rec["connected"] = m.facade is not None
+        t_end = loop.time() + 400
+        checked = 0
+        bad = []
+        while loop.time() < t_end and rec["connected"]:
+            await asyncio.sleep(1.0)
+            while checked < len(rec["injected"]) and loop.time() - rec["injected"][checked][0] > 2.0:
+                _, pos, hexv = rec["injected"][checked]
+                blk = m.facade.spa.struct.status_block
+                later = [x for x in rec["injected"][checked + 1:] if abs(x[1] - pos) < 2]
+                if not later and blk[pos:pos + 2].hex() != hexv:
+                    bad.append({"position": pos, "reported": hexv, "client holds": blk[pos:pos + 2].hex(), "nth": checked + 1})
+                checked += 1
+        rec["checked"] = checked
+        rec["bad"] = bad[:3]
+        await m.__aexit__(None, None, None)
+    vloop.run_virtual(body, stable=True)
+    ctx.count("evaluations", max(1, rec.get("checked", 0)))
+    ctx.cov["connected_refresh_then_update"] = {"refreshes_followed_by_an_update": rec.get("checked", 0), "acknowledged": rec.get("acks")}
+    if not rec.get("connected") or rec.get("checked", 0) < 2:
+        ctx.obligation_broken("harness:connected-refresh-then-update", {"connected": rec.get("connected"), "checked": rec.get("checked")})
+    elif rec["bad"] or rec["acks"] < rec["checked"]:
+        ctx.violation("connected:update-behind-a-refresh", {"kind": "connected-refresh-then-update"},
+                      "after a refresh answer followed by a partial update of a position in its range the client holds the update (arrival order), and every update is acknowledged",
+                      {"lost or overwritten": rec["bad"], "updates": rec["checked"], "acknowledgements": rec["acks"]})
+
+
 def ev_json(ev):
     if ev[0] == "wire":
         return ["wire", mk_statp(ev[1]), ev[2], ev[3]] + list(ev[4:])
@@ -458,6 +538,10 @@ def run(ctx):
         if len(h) >= 2:
             nontrivial.add((kinds, rep))
     try:
+        connected_refresh_then_update(ctx)
+    except Exception as e:  # noqa
+        ctx.obligation_broken("harness:connected-refresh-then-update", f"{type(e).__name__}: {e}")
+    try:
         model = Driver("Driver/C05.lean").run(lines)
     except DriverFailure as e:
         ctx.obligation_broken("driver:C05", e)
@@ -486,6 +570,9 @@ def run(ctx):
 def replay(inp):
     from common import Ctx
     ctx = Ctx("C05", "quick", 0)
+    if inp.get("kind") == "connected-refresh-then-update":
+        connected_refresh_then_update(ctx)
+        return bool(ctx.violations), ctx.violations[0]["observed"] if ctx.violations else "every update behind a refresh is held"
     hist = []
 
     def recs_of(hexbody):
